@@ -55,11 +55,17 @@ pub struct Stk {
     pub wsel: [usize; 2],
     /// ideal reward numerator Σ stake_atomics · seconds · apr · (1e18 − c): divide by 1e18³·YEAR for tokens
     pub acc: [[V; 2]; 2],
+    /// the same with the lower end of the stake interval
+    pub acc_lo: [[V; 2]; 2],
     pub paid: [[V; 2]; 2],
     pub nwd: [[u128; 2]; 2],
     /// did (d,v) ever lose its entry while positive rewards were possibly pending (lower bound void)
     pub lower_void: [[bool; 2]; 2],
     pub steps: usize,
+    /// C15 only: keep the reward books (adds decisions about stakes staying positive)
+    pub track_rewards: bool,
+    /// when non-empty, the next amounts are these constants instead of fresh symbols
+    pub fixed_amounts: std::collections::VecDeque<u128>,
 }
 
 #[derive(Clone, Debug)]
@@ -145,10 +151,13 @@ impl Stk {
             now: k(T0 as u128 * E9),
             wsel: [0, 1],
             acc: [[z, z], [z, z]],
+            acc_lo: [[z, z], [z, z]],
             paid: [[z, z], [z, z]],
             nwd: [[0; 2]; 2],
             lower_void: [[false; 2]; 2],
             steps: 0,
+            track_rewards: false,
+            fixed_amounts: Default::default(),
         }
     }
 
@@ -230,10 +239,67 @@ impl Stk {
         check(&format!("{}pool_covers_pending_unbondings", tag), le(pend, self.bal[3]));
     }
 
+    /// C15 (i): withdrawn + pending never exceeds the ideal, and falls short of it by less than one
+    /// token per withdrawal made plus one (the latter only while the delegation provably stayed positive).
+    /// Each bound is checked with an allowance of 1e-6 token for fixed-point rounding; `strict` adds the
+    /// bounds exactly as worded (these hinge on number-theoretic coincidences of the 18-decimal
+    /// rounding: known finding F9, and queries the solver may not decide).
+    pub fn check_reward_bounds(&self, tag: &str, strict: bool) {
+        let dd = mul(k(E18), mul(k(E18), mul(k(E18), k(YEAR))));
+        let eps = div(dd, k(1_000_000));
+        for d in 0..2 {
+            for vv in 0..2 {
+                let pending = match self.observed_reward(d, vv) {
+                    Some(p) => v(p),
+                    None => k(0),
+                };
+                let total = add(self.paid[d][vv], pending);
+                let ok = check(
+                    &format!("{}rewards_never_exceed_ideal_plus_rounding", tag),
+                    le(mul(total, dd), add(self.acc[d][vv], eps)),
+                );
+                if ok && strict {
+                    check(&format!("{}rewards_never_exceed_ideal", tag), le(mul(total, dd), self.acc[d][vv]));
+                }
+                if !self.lower_void[d][vv] {
+                    let slack = k(self.nwd[d][vv] + 1);
+                    let relaxed = lt(self.acc_lo[d][vv], add(mul(add(total, slack), dd), eps));
+                    let ok = check(&format!("{}rewards_short_by_less_than_slack_plus_rounding", tag), relaxed);
+                    if ok && strict {
+                        let strict_b = lt(self.acc_lo[d][vv], mul(add(total, slack), dd));
+                        check(&format!("{}rewards_short_by_less_than_one_token_per_withdrawal_plus_one", tag), strict_b);
+                    }
+                }
+            }
+        }
+    }
+
+    /// a delegation that (possibly) dropped to zero forfeits what was pending: a new period starts
+    fn period_maybe_ended(&mut self, d: usize, vv: usize) {
+        // stays positive for sure? then nothing to do
+        if decide(lt(k(0), self.lo[d][vv])) {
+            return;
+        }
+        if decide(eq(self.stake[d][vv], k(0))) {
+            // certainly gone: restart the books
+            self.acc[d][vv] = k(0);
+            self.acc_lo[d][vv] = k(0);
+            self.paid[d][vv] = k(0);
+            self.nwd[d][vv] = 0;
+            self.lower_void[d][vv] = false;
+        } else {
+            // may or may not have been removed: only the upper bound remains meaningful
+            self.lower_void[d][vv] = true;
+        }
+    }
+
     // ---------------------------------------------------------------------------------------
     // operations: execute on the real App, compare with the reference semantics
 
-    fn amount_for(&self, name: &str, hi: u128) -> Uint128 {
+    fn amount_for(&mut self, name: &str, hi: u128) -> Uint128 {
+        if let Some(x) = self.fixed_amounts.pop_front() {
+            return u(x);
+        }
         sym_u128(&format!("{}{}", name, self.steps), 0, hi)
     }
 
@@ -319,6 +385,9 @@ impl Stk {
                             check("undelegate_ok_implies_positive_and_delegated", pre);
                             self.stake[d][vv] = sub(self.stake[d][vv], mul(v(a), k(E18)));
                             self.lo_minus(d, vv, mul(v(a), k(E18)));
+                            if self.track_rewards {
+                                self.period_maybe_ended(d, vv);
+                            }
                             let payout_at = add(self.now, k(self.cfg.unbonding as u128 * E9));
                             self.unb.push(Unb { d, v: vv, amount: v(a), payout_at });
                         }
@@ -362,6 +431,9 @@ impl Stk {
                             self.stake[d][dst] = add(self.stake[d][dst], mul(v(a), k(E18)));
                             self.lo_minus(d, src, mul(v(a), k(E18)));
                             self.lo[d][dst] = add(self.lo[d][dst], mul(v(a), k(E18)));
+                            if self.track_rewards {
+                                self.period_maybe_ended(d, src);
+                            }
                         }
                     }
                     Err(_) => {
@@ -482,6 +554,9 @@ impl Stk {
                                 self.stake[d][vv] = div(mul(self.stake[d][vv], rem), k(E18));
                                 let whole = mul(div(self.lo[d][vv], k(E18)), k(E18));
                                 self.lo[d][vv] = div(mul(whole, rem), k(E18));
+                                if self.track_rewards {
+                                    self.period_maybe_ended(d, vv);
+                                }
                             }
                             for ub in self.unb.iter_mut().filter(|u| u.v == vv) {
                                 ub.amount = div(mul(ub.amount, rem), k(E18));
@@ -521,6 +596,10 @@ impl Stk {
                         let inc = mul(inc, k(self.cfg.apr));
                         let inc = mul(inc, k(E18 - self.cfg.comm[vv]));
                         self.acc[d][vv] = add(self.acc[d][vv], inc);
+                        let inc = mul(self.lo[d][vv], v64(dtv));
+                        let inc = mul(inc, k(self.cfg.apr));
+                        let inc = mul(inc, k(E18 - self.cfg.comm[vv]));
+                        self.acc_lo[d][vv] = add(self.acc_lo[d][vv], inc);
                     }
                 }
                 self.now = add(self.now, mul(v64(dtv), k(E9)));
